@@ -5,8 +5,9 @@ index order with the root first, port addressing by the reader's contract).
 Second pass (coq/run/C03SchemaRun.v, harness/c03_coqschema.py): every document a case emits — exactly the texts
 the python-jsonschema server is asked about: HUGR documents, Package documents, Extension documents, lowering
 HUGRs inside extensions — is also written out as a JSON tree and validated IN COQ (vm_compute) by the validator of
-coq/model/Schema.v against the regenerated `published_hugr_strict` constant; both validators must accept (monitor)
-and agree (correspondence).  Per HUGR of a case the JSON value the implementation wrote is compared in Coq with
+coq/model/Schema.v against the regenerated `published_hugr_strict` constant; both validators must accept (monitor;
+a failing case is re-evaluated part by part to name what failed and to report a disagreement of the two validators as
+model drift).  Per HUGR of a case the JSON value the implementation wrote is compared in Coq with
 the rendering (coq/model/DocJson.v `doc_json`) of the document the Gallina model of Hugr._to_serial computes from
 the public-API dump; operation objects and metadata dicts come from that dump, not from the document."""
 import json
@@ -40,7 +41,7 @@ def static_clauses(case, o):
     return (not raw_static, not raw_static and not deleted)
 
 
-def rowpoly_program(row, with_defn=False):
+def rowpoly_program(row):
     """a module with the row-polymorphic function  forall (r : [Type]). (*r) -> (*r)  (body: ONE input, the row
     variable) declared and called from main at r := row; the Call node has len(row) value inputs, so its static
     function port is len(row): fewer than the polymorphic body's input count for row = [], more for len(row) >= 2"""
@@ -70,18 +71,22 @@ class C03(RT):
             "non-trivial = a HUGR with an order link or a hole in its node table and at least 4 nodes, or a "
             "package / extension document")
     trusted = list(RT.trusted) + [
-        "harness/c03_coqschema.py: printer of the emitted JSON text (parsed with Python's json) as a Gallina `json` "
-        "term with shared sub-values; the tables operation code -> members / metadata code -> members of the tie are "
-        "taken from the public-API dump (NodeData._to_serial per node), not from the document",
+        "harness/c03_coqschema.py: printer of the emitted JSON text (parsed with Python's json, duplicate members "
+        "refused) as hash-consed Gallina tables (strings and shared sub-values by index), rebuilt into `json` trees by "
+        "expand_all of coq/run/C03SchemaRun.v; the tables operation code -> members / metadata code -> members of the "
+        "tie are taken from the public-API dump (NodeData._to_serial per node), not from the document",
         "harness/translators/schema.py (C17): specification/schema/hugr_schema_strict_live.json -> gen/Schemas.v "
         "`published_hugr_strict`, regenerated on every run, fails closed on keywords outside the formalised subset",
         "fuel 600 of the Coq validator is enough for every sampled document: checked per document by the agreement "
         "with python-jsonschema (exhausted fuel rejects)",
     ]
     assumptions = list(RT.assumptions) + [
-        "theorems C03_model_document_schema_valid / C03_model_package_schema_valid: every operation object (with any "
-        "parent index) is accepted by the OpType definition of the published strict schema (hypothesis ops_valid, "
-        "visible in the statement; what C05/C17 cover); evaluated on every sampled document by the Coq monitor",
+        "theorems C03_model_document_schema_valid / C03_emitted_document_schema_valid / C03_*_package_schema_valid: every "
+        "operation object, written with parent 0, is accepted by the OpType definition of the published strict schema "
+        "(hypothesis ops_valid0, visible in the statements; what C05/C17 cover), and extension documents by its Extension "
+        "definition; the instances are evaluated on every sampled document by the Coq monitor (whole documents are validated)",
+        "static-port clauses (coq/spec/StaticWiringS.v) are promises about links made by the builder API: switched off per "
+        "HUGR after a raw add_link from a static output / a delete mutation (counted in coq_schema.static_*_clause_applies)",
         "JSON Schema draft 2020-12 semantics for the keyword subset occurring in the published files (C17's validator)",
     ]
 
